@@ -173,6 +173,19 @@ def run(ctx):
                                       d.get("real"), d.get("evaluator")), d)
     except Exception as ex:
         ctx.correspondence_broken("compiletie3-crashed", repr(ex)[:500])
+    # level 5 (same engine): F3 + catch clauses — clause segments, CLEAR_STACK / PUSH_EXCEPT chains, one exception
+    # table entry per segment, faults in bodies, in arguments of pending calls, in callees and inside clauses
+    try:
+        from checks.parts import compiletie
+        ct5 = compiletie.run_compiletie(ctx, 600 if ctx.tier == "quick" else 5000, ctx.seed, level=5)
+        if ct5:
+            for d in ct5["run_diffs"][:3]:
+                if d.get("valuevm") is not None and d.get("valuevm") == d.get("evaluator"):
+                    ctx.violation("compiletie5:real-differs-from-evaluator:case%s" % d.get("case"),
+                                  "F5 program: the real VM gives %s, the evaluator (and the value-level VM model) %s" % (
+                                      d.get("real"), d.get("evaluator")), d)
+    except Exception as ex:
+        ctx.correspondence_broken("compiletie5-crashed", repr(ex)[:500])
     ctx.assumptions.extend(NOT_MODELLED)
     ctx.coverage["disagreeing_cases"] = len(r["c02"])
     ctx.coverage["corpus_programs"] = ncorpus
